@@ -203,6 +203,7 @@ Section Log.
     resolved_db NM w op odb = inr d ->                   (* the book is fine *)
     tokenize (op_fmt op) = Some toks ->
     op_log op <> [] ->
+    op_log op <> dev_null ->
     lookup (op_log op) (w_fs w) = Some (FFile data) ->
     lookup (op_log op) (w_read_fault w) = None ->
     w_sink w = None ->
@@ -220,7 +221,7 @@ Section Log.
                        | None => Failed (EParse (perr_message e))
                        end |}.
   Proof.
-    intros w op mk bt et odb d toks data pre e post Hdb Hres Htok Hne Hfs Hrf Hsink Hev Hpre Hd Hproc R rs.
+    intros w op mk bt et odb d toks data pre e post Hdb Hres Htok Hne Hnd Hfs Hrf Hsink Hev Hpre Hd Hproc R rs.
     assert (Hopen : open_file w (op_log op) = Some (OData data NoFault))
       by (apply open_plain; repeat split; assumption).
     unfold run_db_log. rewrite (open_all_two _ _ _ _ _ Hdb Hopen), Hres, Htok.
@@ -236,6 +237,7 @@ Section Log.
     resolved_db NM w op odb = inr d ->
     tokenize (op_fmt op) = Some toks ->
     op_log op <> [] ->
+    op_log op <> dev_null ->
     lookup (op_log op) (w_fs w) = Some (FFile data) ->
     lookup (op_log op) (w_read_fault w) = None ->
     w_sink w = None ->
@@ -245,9 +247,9 @@ Section Log.
     process_total (mk d) -> never_panics (mk d) ->
     out_status (run_db_log NM w op mk bt et) = Failed (EParse (perr_message e)).
   Proof.
-    intros w op mk bt et odb d toks data pre e post Hdb Hres Htok Hne Hfs Hrf Hsink Hev Hpre Hd Hproc Hpan.
+    intros w op mk bt et odb d toks data pre e post Hdb Hres Htok Hne Hnd Hfs Hrf Hsink Hev Hpre Hd Hproc Hpan.
     rewrite (run_db_log_first_error_log w op mk bt et odb d toks data pre e post
-               Hdb Hres Htok Hne Hfs Hrf Hsink Hev Hpre Hd Hproc).
+               Hdb Hres Htok Hne Hnd Hfs Hrf Hsink Hev Hpre Hd Hproc).
     cbn [out_status]. rewrite Hpan. reflexivity.
   Qed.
 
@@ -257,6 +259,7 @@ Section Log.
     resolved_db NM w op odb = inr d ->
     tokenize (op_fmt op) = Some toks ->
     op_log op <> [] ->
+    op_log op <> dev_null ->
     lookup (op_log op) (w_fs w) = Some (FFile data) ->
     lookup (op_log op) (w_read_fault w) = None ->
     w_sink w = None ->
@@ -267,7 +270,7 @@ Section Log.
     process_total (mk d) -> never_panics (mk d) ->
     out_status (run_db_log NM w op mk bt et) = Failed EBadDate.
   Proof.
-    intros w op mk bt et odb d toks data pre n post Hdb Hres Htok Hne Hfs Hrf Hsink Hev Hpre Hd Hbad Hpost
+    intros w op mk bt et odb d toks data pre n post Hdb Hres Htok Hne Hnd Hfs Hrf Hsink Hev Hpre Hd Hbad Hpost
            Hproc Hpan.
     assert (Hopen : open_file w (op_log op) = Some (OData data NoFault))
       by (apply open_plain; repeat split; assumption).
@@ -282,6 +285,7 @@ Section Log.
   Theorem run_log_first_error_log : forall (w : world) (op : options) (R : reporter NM) toks data pre e post,
     tokenize (op_fmt op) = Some toks ->
     op_log op <> [] ->
+    op_log op <> dev_null ->
     lookup (op_log op) (w_fs w) = Some (FFile data) ->
     lookup (op_log op) (w_read_fault w) = None ->
     w_sink w = None ->
@@ -295,7 +299,7 @@ Section Log.
                        ++ chunk_bytes (r_flush NM R (o_flush (w_or w)) rs);
          out_status := Failed (EParse (perr_message e)) |}.
   Proof.
-    intros w op R toks data pre e post Htok Hne Hfs Hrf Hsink Hev Hpre Hd Hproc rs.
+    intros w op R toks data pre e post Htok Hne Hnd Hfs Hrf Hsink Hev Hpre Hd Hproc rs.
     assert (Hopen : open_file w (op_log op) = Some (OData data NoFault))
       by (apply open_plain; repeat split; assumption).
     unfold run_log. rewrite (open_all_one _ _ _ Hopen), Htok.
@@ -308,6 +312,7 @@ Section Log.
   Theorem run_log_bad_date_first : forall (w : world) (op : options) (R : reporter NM) toks data pre n post,
     tokenize (op_fmt op) = Some toks ->
     op_log op <> [] ->
+    op_log op <> dev_null ->
     lookup (op_log op) (w_fs w) = Some (FFile data) ->
     lookup (op_log op) (w_read_fault w) = None ->
     w_sink w = None ->
@@ -318,7 +323,7 @@ Section Log.
     process_total R ->
     out_status (run_log NM w op R) = Failed EBadDate.
   Proof.
-    intros w op R toks data pre n post Htok Hne Hfs Hrf Hsink Hev Hpre Hd Hbad Hpost Hproc.
+    intros w op R toks data pre n post Htok Hne Hnd Hfs Hrf Hsink Hev Hpre Hd Hbad Hpost Hproc.
     assert (Hopen : open_file w (op_log op) = Some (OData data NoFault))
       by (apply open_plain; repeat split; assumption).
     unfold run_log. rewrite (open_all_one _ _ _ Hopen), Htok.
